@@ -78,6 +78,7 @@ class UnitResult:
         self.strip_compare = 0
         self.gen_path = ""
         self.gen_sha = ""
+        self.skipped_anchors = {}
 
 
 TAG_RE = re.compile(r"//\s*#(\w+)((?:\s+C\d+)*)\s*$")
@@ -291,6 +292,10 @@ def run_unit(name, unit_props, rlimit=None, extra_args=(), gen_dir=None, timeout
                 pass
     store_props = {k: v.props for k, v in store.items()}
     compile_errors = []
+    untrusted = []
+    res.skipped_anchors = {k: list(v) for k, v in unit.skipped.items()}
+    for k, v in unit.skipped_harmless.items():
+        res.skipped_anchors.setdefault(k, []).extend("%s (loop no longer exists)" % a for a in v)
     for d in diags:
         if d.get("level") != "error":
             continue
@@ -341,6 +346,11 @@ def run_unit(name, unit_props, rlimit=None, extra_args=(), gen_dir=None, timeout
             f.props = list(unit_props)
         if f.function.split("::")[-1].startswith("canary_"):
             f.is_canary = True
+        if item_key and item_key in unit.skipped:
+            # proof annotations of this function could not be placed (anchors lost): its failures are
+            # a missing proof, not a refuted obligation
+            untrusted.append((f, item_key))
+            continue
         src_txt = " ".join(t["text"][t["highlight_start"] - 1:t["highlight_end"] - 1] for t in sp.get("text", []))
         src_txt = re.sub(r"\s+", " ", src_txt).strip()
         if loc["origin"] == "repo":
@@ -363,7 +373,14 @@ def run_unit(name, unit_props, rlimit=None, extra_args=(), gen_dir=None, timeout
                         f.clause = "%s@%s" % (cid, f.expr or "")
         res.failures.append(f)
 
-    if compile_errors and not res.failures:
+    if untrusted:
+        res.status = "undecided"
+        res.reason = "anchors lost in %s (%s): the function changed shape, its proof annotations could not be placed and it no longer verifies" % (
+            untrusted[0][1], "; ".join(unit.skipped[untrusted[0][1]])[:200])
+    if compile_errors and unit.skipped:
+        res.status, res.reason = "undecided", "anchors lost (%s) and verus rejected the generated file: %s" % (
+            "; ".join("%s: %s" % (k, ", ".join(v)) for k, v in unit.skipped.items())[:300], compile_errors[0][:300])
+    elif compile_errors and not res.failures:
         res.status, res.reason = "undecided", "verus rejected the generated file: " + compile_errors[0][:600]
     elif compile_errors:
         res.status, res.reason = "undecided", "verus rejected the generated file: " + compile_errors[0][:600]
